@@ -3,6 +3,8 @@ package harness
 import (
 	"sort"
 	"strconv"
+	"strings"
+	"unicode/utf8"
 
 	at "github.com/DanielSvub/anytype"
 	"pgregory.net/rapid"
@@ -21,6 +23,9 @@ type C11Case struct {
 	Root   V         `json:"root"`
 	Writes []TFWrite `json:"writes"`
 	Build  int       `json:"build,omitempty"` // construction-route seed (0 = Add/Set)
+	// Latin1: keys and paths are re-encoded at check time so that U+0080..U+00FF become single bytes
+	// (keys that are not valid UTF-8); the JSON of the case keeps the readable spelling
+	Latin1 bool `json:"latin1,omitempty"`
 }
 
 // tnode is the reference tree with identities.
@@ -273,7 +278,9 @@ func genWritePath(t *rapid.T, root *tnode, forUnset bool) []tfSeg {
 		if cur.k == KObject {
 			var keys []string
 			for k := range cur.fields {
-				keys = append(keys, k)
+				if k != "" && !strings.ContainsAny(k, ".#") {
+					keys = append(keys, k) // distractor keys are not addressable
+				}
 			}
 			sort.Strings(keys)
 			existing := 75
@@ -340,8 +347,12 @@ func genWritePath(t *rapid.T, root *tnode, forUnset bool) []tfSeg {
 	return segs
 }
 
-func tfTreeRoot(t *rapid.T) V {
-	root := tfTreeRoot0(t)
+func tfTreeRoot(t *rapid.T) V { return tfTreeRootD(t, false) }
+
+// tfTreeRootD: with distract, one key in five is a key no tree-form path can address ("", "a.b",
+// "#1", ".a", "a#0"); such entries are never on a write path and must survive every write.
+func tfTreeRootD(t *rapid.T, distract bool) V {
+	root := tfTreeRoot0(t, distract)
 	if oneIn(t, 6, "twinlist") {
 		// a scalar list together with a sibling that starts with the same content (the construction
 		// routes may then derive the sibling from it with Concat)
@@ -375,8 +386,16 @@ func tfTreeRoot(t *rapid.T) V {
 	return root
 }
 
-func tfTreeRoot0(t *rapid.T) V {
+func tfTreeRoot0(t *rapid.T, distract bool) V {
 	cfg := tfTreeCfg()
+	if distract {
+		cfg.KeyGen = func(t *rapid.T) string {
+			if oneIn(t, 5, "dk") {
+				return []string{"", "a.b", "#1", ".a", "a#0"}[drawInt(t, 0, 4, "dkk")]
+			}
+			return tfKeyGen(t)
+		}
+	}
 	n := drawInt(t, 0, 4, "rootw")
 	var root V
 	if drawBool(t, "rootlist") {
@@ -400,8 +419,8 @@ func tfTreeRoot0(t *rapid.T) V {
 }
 
 func GenC11(t *rapid.T) *C11Case {
-	root := tfTreeRoot(t)
-	c := &C11Case{Root: root}
+	root := tfTreeRootD(t, oneIn(t, 4, "distractors"))
+	c := &C11Case{Root: root, Latin1: oneIn(t, 5, "latin1")}
 	if drawBool(t, "variant") {
 		c.Build = 1 + genRaw(t)
 	}
@@ -484,6 +503,26 @@ func collectIDs(n *tnode, seen map[any]bool) {
 func CheckC11(c *C11Case, st *Stats) error {
 	if c.Root.K != KList && c.Root.K != KObject {
 		return nil
+	}
+	if c.Latin1 {
+		cc := *c
+		ok := true
+		cc.Root, ok = c.Root.Latin1Keys()
+		cc.Writes = append([]TFWrite{}, c.Writes...)
+		invalid := false
+		for i := range cc.Writes {
+			var ok2 bool
+			cc.Writes[i].Path = latin1(cc.Writes[i].Path)
+			cc.Writes[i].Val, ok2 = cc.Writes[i].Val.Latin1Keys()
+			ok = ok && ok2
+			invalid = invalid || !utf8.ValidString(cc.Writes[i].Path)
+		}
+		if ok {
+			c = &cc
+			if invalid {
+				st.Count("write_path_with_invalid_utf8_key")
+			}
+		}
 	}
 	root := BuildVariant(c.Root, c.Build)
 	model := tFromV(c.Root)
@@ -683,6 +722,6 @@ func cmpTH(n *tnode, x any, history map[any]bool, path string) error {
 
 func init() {
 	Register("C11",
-		"trees with sigil-free keys (long lists, chains up to 70 levels with paths of up to 80 segments, drawn construction routes so that element wrappers may be shared between positions) x sequences of 1-5 tree-form writes. SetTF paths are well-formed random walks that follow existing children or deliberately leave them (existing / new key; index < n, = n, n+1..n+4; next sigil matching or not matching the child's kind), so every cell of (container kind) x (next segment . / # / leaf) x (missing, right kind, wrong kind: scalar, nil, other container) occurs; values are scalars, fresh containers or native Go maps/slices. Oracle: a reference writer over a model tree with identities (reuse right-kind intermediates, replace others by a new container of the kind the next segment needs, pad lists with nil): SetTF must not panic, returns the root, GetTF(p) yields v (identical container), and the whole tree equals the model with every reused container identical to before and every created container never seen before. UnsetTF: resolvable => exactly that entry removed (list tail shifts); otherwise tree unchanged whether or not it panics. Non-trivial = a write with >= 2 segments or one that creates/replaces an intermediate or pads a list. Distinct = distinct FNV-64a hash of the case JSON.",
+		"trees with sigil-free keys (incl. keys with or ending in a backslash; in one case of five keys and paths are re-encoded to bytes that are not valid UTF-8; in one tree of four one key in five is an unaddressable distractor - empty, or containing a sigil - that every write must leave alone; long lists, chains up to 70 levels with paths of up to 80 segments, drawn construction routes so that element wrappers may be shared between positions) x sequences of 1-5 tree-form writes. SetTF paths are well-formed random walks that follow existing children or deliberately leave them (existing / new key; index < n, = n, n+1..n+4; next sigil matching or not matching the child's kind), so every cell of (container kind) x (next segment . / # / leaf) x (missing, right kind, wrong kind: scalar, nil, other container) occurs; values are scalars, fresh containers or native Go maps/slices. Oracle: a reference writer over a model tree with identities (reuse right-kind intermediates, replace others by a new container of the kind the next segment needs, pad lists with nil): SetTF must not panic, returns the root, GetTF(p) yields v (identical container), and the whole tree equals the model with every reused container identical to before and every created container never seen before. UnsetTF: resolvable => exactly that entry removed (list tail shifts); otherwise tree unchanged whether or not it panics. Non-trivial = a write with >= 2 segments or one that creates/replaces an intermediate or pads a list. Distinct = distinct FNV-64a hash of the case JSON.",
 		GenC11, CheckC11)
 }
